@@ -385,10 +385,17 @@ def judge(source, text, rename_globals=False, preserve_locals=(), preserve_globa
     for (x, y, path, role) in pairs:
         new_of.setdefault(x, set()).add(y)
     # consistency
+    body_of = {}
+    for (x, y, path, role) in pairs:
+        if not role.startswith('parameter:'):
+            body_of.setdefault(x, set()).add(y)
     for x, ys in sorted(new_of.items()):
         ys2 = {aliases.get(y, y) if aliases.get(y, y) == x else y for y in ys}
         if len(ys2 - {x}) > 1:
             problems.append('the occurrences of %s are renamed inconsistently: %s' % (x, sorted(ys)))
+        elif len(body_of.get(x, ())) > 1:
+            # only the signature may keep the original spelling while the body uses the new name (re-bound at the top of the body)
+            problems.append('some occurrences of %s are renamed to %s and others keep the old spelling' % (x, sorted(body_of[x] - {x})))
     if problems or light:
         return problems[:4]
     final = {}
@@ -568,8 +575,7 @@ def forms(model, rep, rule, binding_fields):
             rep.check(not problems, rule, fi.loc(), '%s -> %r' % (label, text[:60]), 'alpha-equivalent (%s)' % ('renamed: %s' % sorted(gone) if gone else 'name kept'),
                       'renaming a name bound by %s.%s breaks the program: %s -- output %r' % (c, f, '; '.join(problems[:2]), text[:140]), key=key)
     rep.count('binding_forms_renamed', renamed)
-    if renamed < 20:
-        raise AnalysisError('only %d of the binding-form probes are renamed at all: the form rule has lost its sensitivity' % renamed)
+    rep.sensitive(renamed >= 20, 'only %d of the binding-form probes are renamed at all: the form rule has lost its sensitivity' % renamed)
 
 
 def final_names(source, text):
@@ -606,8 +612,7 @@ def keep_names(model, rep, rule, label, source, must_keep, why):
             raise AnalysisError('probe %s: the name %s does not occur' % (label, name))
         rep.check(ys == {name}, rule, fi.loc(), '%s: %s -> %s' % (label, name, sorted(ys)), 'keeps its spelling (%s)' % why.get(name, ''),
                   '%s is renamed to %s although it must keep its spelling: %s' % (name, sorted(ys - {name}), why.get(name, '')), key='%s|%s' % (key, name))
-    if n_renamed < 5:
-        raise AnalysisError('probe %s: only %d names are renamed at all: the probe has lost its sensitivity' % (label, n_renamed))
+    rep.sensitive(n_renamed >= 5, 'probe %s: only %d names are renamed at all: the probe has lost its sensitivity' % (label, n_renamed))
 
 
 def signatures(model, rep, rule, kinds, sigs):
@@ -641,5 +646,4 @@ def signatures(model, rep, rule, kinds, sigs):
             rep.check(not problems, rule, fi.loc(), '%s -> %r' % (label, text[:70]), 'keyword-callable parameters keep their spelling in the signature; the body is alpha-equivalent',
                       '; '.join(problems[:3]) + ' -- output: %r' % text[:160], key=key)
     rep.count('parameters_renamed_in_place', in_place)
-    if in_place < 10:
-        raise AnalysisError('only %d parameters are renamed in the signature on the probes: the signature rule has lost its sensitivity' % in_place)
+    rep.sensitive(in_place >= 10, 'only %d parameters are renamed in the signature on the probes: the signature rule has lost its sensitivity' % in_place)
